@@ -6,12 +6,12 @@
 From CL Require Export Model.Convert.
 Open Scope Q_scope.
 
-(* quantity.rs 26-32 *)
+(* ScalableValue, quantity.rs 26-32 *)
 Inductive svalue := SFixed (v : value) | SLinear (v : value).
 (* Quantity<ScalableValue> *)
 Record squantity := { sq_value : svalue; sq_unit : option str }.
 
-(* scale.rs 44-52 (the payload of Error is dropped) *)
+(* ScaleOutcome, scale.rs 66-77 (the payload of Error is dropped) *)
 Inductive scale_outcome := OScaled | OFixed | ONoQuantity | OError.
 
 Section Recipe.
@@ -26,7 +26,7 @@ Section Recipe.
   Record s_timer := { st_name : option str; st_quantity : option squantity }.
   Record timer := { tm_name : option str; tm_quantity : option quantity }.
 
-  (* scale.rs 28-42 *)
+  (* Scaled / ScaledData, scale.rs 40-63 (the target is its factor) *)
   Inductive scaled_data :=
   | DefaultScaling
   | Scaled (factor : Q) (ingredients cookware timers : list scale_outcome).
@@ -47,7 +47,7 @@ Section Recipe.
     r_inline : list quantity;
     r_data : scaled_data }.
 
-  (* linear_scale, scale.rs 228-238; None = Err(TextValueError) *)
+  (* linear_scale, scale.rs 226-236; None = Err(TextValueError) *)
   Definition linear_scale (v : value) (factor : Q) : option value :=
     match v with
     | VNumber n => Some (VNumber (Regular (num_value n * factor)))
@@ -55,7 +55,7 @@ Section Recipe.
     | VText _ => None
     end.
 
-  (* Scale for ScalableValue, scale.rs 205-226 *)
+  (* Scale for ScalableValue, scale.rs 205-224 *)
   Definition value_scale (v : svalue) (factor : Q) : value * scale_outcome :=
     match v with
     | SFixed x => (x, OFixed)
@@ -67,14 +67,14 @@ Section Recipe.
   Definition value_default (v : svalue) : value :=
     match v with SFixed x => x | SLinear x => x end.
 
-  (* Scale for ScalableQuantity, scale.rs 240-258 *)
+  (* Scale for ScalableQuantity, scale.rs 238-255 *)
   Definition quantity_scale (q : squantity) (factor : Q) : quantity * scale_outcome :=
     let r := value_scale (sq_value q) factor in
     ({| q_value := fst r; q_unit := sq_unit q |}, snd r).
   Definition quantity_default (q : squantity) : quantity :=
     {| q_value := value_default (sq_value q); q_unit := sq_unit q |}.
 
-  (* Scale for Ingredient, scale.rs 260-290 *)
+  (* Scale for Ingredient, scale.rs 257-286 *)
   Definition ingredient_scale (i : s_ingredient) (factor : Q) : ingredient * scale_outcome :=
     match si_quantity i with
     | Some q => let r := quantity_scale q factor in
@@ -85,7 +85,7 @@ Section Recipe.
     {| ig_frame := si_frame i;
        ig_quantity := match si_quantity i with Some q => Some (quantity_default q) | None => None end |}.
 
-  (* Scale for Cookware, scale.rs 292-320 *)
+  (* Scale for Cookware, scale.rs 288-315 *)
   Definition cookware_scale (k : s_cookware) (factor : Q) : cookware * scale_outcome :=
     match sc_quantity k with
     | Some v => let r := value_scale v factor in
@@ -96,7 +96,7 @@ Section Recipe.
     {| ck_frame := sc_frame k;
        ck_quantity := match sc_quantity k with Some v => Some (value_default v) | None => None end |}.
 
-  (* Scale for Timer, scale.rs 322-342 *)
+  (* Scale for Timer, scale.rs 317-336 *)
   Definition timer_scale (t : s_timer) (factor : Q) : timer * scale_outcome :=
     match st_quantity t with
     | Some q => let r := quantity_scale q factor in
@@ -158,14 +158,14 @@ Section Recipe.
       | None => 1%N
       end.
 
-    (* ScalableRecipe::scale_to_servings, scale.rs 159-168 *)
+    (* ScalableRecipe::scale_to_servings, scale.rs 160-168 *)
     Definition scale_to_servings (target : N) (r : s_recipe) : outcome recipe :=
       let base := servings_base r in
       if (base =? 0)%N then Panic site_factor_not_finite
       else scale (NQ target / NQ base) r.
   End WithConverter.
 
-  (* ScalableRecipe::default_scale, scale.rs 170-193 *)
+  (* ScalableRecipe::default_scale, scale.rs 173-195 *)
   Definition default_scale (r : s_recipe) : recipe :=
     {| r_frame := sr_frame r;
        r_ingredients := map ingredient_default (sr_ingredients r);
